@@ -299,8 +299,12 @@ func runCheck(env *Env, id, tier string, spec *CheckSpec, doReplay bool) int {
 		if tierN == 0 && n > 40 {
 			n = 40
 		}
-		c1, d1 := crossCheck(rr.samples[:n], []string{"/usr/bin/z3", "-in", "-smt2"}, env.SolverMs)
-		c2, d2 := crossCheck(rr.samples[:n], []string{"cvc5", "--incremental", "--lang=smt2", "--tlimit-per=60000"}, env.SolverMs)
+		c1, d1 := crossCheck(rr.samples[:n], []string{"z3-new", "-in", "-smt2"}, env.SolverMs)
+		nc := n
+		if tierN == 0 && nc > 10 {
+			nc = 10
+		}
+		c2, d2 := crossCheck(rr.samples[:nc], []string{"cvc5", "--incremental", "--lang=smt2", "--tlimit-per=60000"}, env.SolverMs)
 		diffChecked = c1 + c2
 		diffDisagree = append(d1, d2...)
 		for _, d := range diffDisagree {
@@ -444,7 +448,7 @@ func runCheck(env *Env, id, tier string, spec *CheckSpec, doReplay bool) int {
 		"distinct_nontrivial":                   totalPaths,
 		"rule":                                  "one evaluation = one symbolic path (a distinct vector of branch/concretisation decisions) of a harness entry, decided by the SMT solver for all values of the symbolic inputs; all are distinct by construction",
 		"exhaustive":                            len(inconclusive) == 0,
-		"explanation":                           "symbolic execution of the real code from go/ssa of /repo's working tree; states = symbolic paths fully explored, transitions = branch decisions + API operations executed; every path condition and assertion decided by z3 5.1.0 over 64-bit bit-vectors",
+		"explanation":                           "symbolic execution of the real code from go/ssa of /repo's working tree; states = symbolic paths fully explored, transitions = branch decisions + API operations executed; every path condition and assertion decided by z3 4.8.12 over 64-bit bit-vectors",
 		"bounds":                                bounds,
 		"outside_the_claim":                     spec.Outside,
 		"jobs":                                  jobList,
@@ -470,8 +474,8 @@ func runCheck(env *Env, id, tier string, spec *CheckSpec, doReplay bool) int {
 		"workers":                               env.Workers,
 		"obligations":                           rr.queries,
 		"discharged":                            rr.queries - rr.unknown,
-		"checker_cmd":                           "z3-new -in -smt2 (z3 5.1.0, QF_BV, one fresh script per query), a sample re-decided by /usr/bin/z3 4.8.12 and cvc5 1.0",
-		"trusted_base":                          []string{"symgo engine (/verif/engine)", "golang.org/x/tools/go/ssa v0.50.0", "z3 5.1.0 (z3-new)", "harness oracles in /verif/harness"},
+		"checker_cmd":                           "/usr/bin/z3 -in -smt2 (z3 4.8.12, QF_BV, one fresh script per query), a sample re-decided by z3-new 5.1.0 and cvc5 1.0",
+		"trusted_base":                          []string{"symgo engine (/verif/engine)", "golang.org/x/tools/go/ssa v0.50.0", "z3 4.8.12", "harness oracles in /verif/harness"},
 	}
 	ev := Evidence{PropertyID: id, Tier: tier, Seed: seed, Level: level, Coverage: cov,
 		Assumptions: append([]string{"environment stubs of DESIGN.md §2.4"}, spec.Assumptions...), WallS: round2(time.Since(t0).Seconds()), Violations: nviol}
